@@ -1,6 +1,6 @@
 """Fixed models of core/alloc functions used by the analysed code."""
 
-from .interp import (Adt, Term, PyVec, PyIter, Closure, FnRef, MutRef, Panic, some, NONE, ok, err,
+from .interp import (Adt, Term, PyVec, PyIter, LazyIter, Closure, FnRef, MutRef, Panic, some, NONE, ok, err,
                      OPTION, RESULT, ORDERING, CF, dcopy, is_sym, INT_RANGES)
 from .report import Unsupported
 
@@ -750,6 +750,14 @@ def _vec_push(m, a, c):
     return ()
 
 
+@reg("std::slice::<impl [T]>::to_vec", "alloc::slice::<impl [T]>::to_vec")
+def _slice_to_vec(m, a, c):
+    v = deref(a[0])
+    if isinstance(v, PyVec):
+        return PyVec(list(v.items))
+    return v          # an opaque byte token: its owned copy is the same token
+
+
 @reg("std::vec::Vec::<T, A>::dedup")
 def _vec_dedup(m, a, c):
     v = deref(a[0])
@@ -1058,11 +1066,38 @@ def _next(m, a, c):
         return _range_step(it, back=False)
     if not isinstance(it, PyIter):
         return NOT_HANDLED
+    if isinstance(it, LazyIter):
+        if it.pos >= it.total():
+            return NONE
+        v = it.get(it.pos)
+        it.pos += 1
+        return some(v)
     if it.pos >= len(it.items):
         return NONE
     v = it.items[it.pos]
     it.pos += 1
     return some(v)
+
+
+class _Pull(object):
+    """list-like view of a LazyIter for consumers that only iterate (and may stop early)"""
+    def __init__(self, it):
+        self.it = it
+
+    def __iter__(self):
+        return self.it.pull()
+
+    def __len__(self):
+        return self.it.total() - self.it.pos
+
+    def __bool__(self):
+        return len(self) > 0
+
+    def __getitem__(self, k):
+        return list(self.it.rest())[k]
+
+    def __add__(self, other):
+        return list(self.it.rest()) + list(other)
 
 
 def _iter_adapt(name):
@@ -1072,7 +1107,18 @@ def _iter_adapt(name):
             return Term("it_" + name, *a)
         if not isinstance(it, (PyIter, PyVec, Adt)):
             return NOT_HANDLED
-        xs = items_of(it)
+        if name == "map":
+            f_ = a[1]
+            if isinstance(it, LazyIter):
+                src = it if it.pos == 0 else list(it.pull())
+            else:
+                src = list(items_of(it))
+            return LazyIter(src, lambda x: m.call_value(f_, [x]))
+        if isinstance(it, LazyIter) and name in ("all", "any", "find", "position", "try_fold", "try_for_each", "sum", "collect",
+                                                  "take_while", "find_map"):
+            xs = _Pull(it)       # pulled one at a time: what the consumer does not reach is not evaluated
+        else:
+            xs = items_of(it)
         if name == "enumerate":
             return PyIter([(i, x) for i, x in enumerate(xs)])
         if name == "rev":
@@ -1156,9 +1202,24 @@ def _iter_adapt(name):
         if name == "count":
             return len(xs)
         if name == "sum":
+            first = None
+            acc = []
+            for x in xs:
+                xd = deref(x)
+                if isinstance(xd, Adt) and xd.path in (OPTION, RESULT):
+                    # Sum for Option<T> / Result<T, E>: stops at the first None / Err
+                    first = xd.path
+                    if xd.variant in ("None", "Err"):
+                        return xd
+                    acc.append(xd.fields["0"])
+                else:
+                    acc.append(x)
+            xs = acc
             s = 0
             for x in xs:
                 s = m.binop("Add", s, x, "usize") if not (is_sym(s) or is_sym(x)) else Term("add", s, x)
+            if first is not None:
+                return some(s) if first == OPTION else ok(s)
             return s
         if name == "all":
             for x in xs:
